@@ -138,6 +138,19 @@ Proof.
   rewrite H1, H. non_commutative_ring.
 Qed.
 
+(** the Newton update of solve_impulse_nonlinear, U <- U - Hinv * residual(U): when the targets are AFFINE in the unknowns with the
+    Jacobian H_U that is inverted (a linear model), one update from ANY starting path lands on the exact solution: the nonlinear
+    solver then returns the linear impulse response *)
+Theorem newton_affine_one_step_lemma HU Hinv b U0 : emul HU Hinv = e1 ->
+  let F := fun U => eadd (emul HU U) b in
+  F (esub U0 (emul Hinv (F U0))) = e0.
+Proof.
+  intros H F. unfold F.
+  assert (H1 : eadd (emul HU (esub U0 (emul Hinv (eadd (emul HU U0) b)))) b
+               = eadd (esub (emul HU U0) (emul (emul HU Hinv) (eadd (emul HU U0) b))) b) by non_commutative_ring.
+  rewrite H1, H. non_commutative_ring.
+Qed.
+
 (** solve_impulse_linear: dU = -Hinv dH solves H_U dU + dH = 0, is additive in the shock, and equals G_U applied to it *)
 Theorem solve_impulse_linear_spec_lemma HU Hinv HZ dZ1 dZ2 : emul HU Hinv = e1 ->
   eadd (emul HU (eopp (emul Hinv (emul HZ dZ1)))) (emul HZ dZ1) = e0 /\
